@@ -13,6 +13,7 @@
     comma, a quote, a space or a word byte, which is all the matchers ask). *)
 From Coq Require Import List NArith Bool Arith.
 From Atlas Require Import Base.Bytes.
+From Atlas Require Diff.Schema.
 Import ListNotations.
 Local Open Scope N_scope.
 
@@ -661,8 +662,10 @@ Definition recover (s : bytes) (cols hidden pk : list bytes) (partial_stmts : li
 Definition bt_ident (n : bytes) : bytes := ch_bt :: n ++ [ch_bt].
 Definition starts_lp (s : bytes) : bool := match s with c :: _ => N.eqb c ch_lp | [] => false end.
 Definition ends_rp (s : bytes) : bool := match rev s with c :: _ => N.eqb c ch_rp | [] => false end.
-(** check(): expressions not already wrapped are trimmed and wrapped *)
-Definition check_expr (e : bytes) : bytes :=
+(** check(): sqlx.MayWrap(strings.TrimSpace(expr)) (fix "sqlite planner wraps a CHECK expression like
+    (a) AND (b) in parentheses"; [check_expr_old] is the code before it: a test of the first and last byte) *)
+Definition check_expr (e : bytes) : bytes := Schema.may_wrap (trim_space e).
+Definition check_expr_old (e : bytes) : bytes :=
   let t := trim_space e in
   if starts_lp t && ends_rp t then e else ch_lp :: t ++ [ch_rp].
 Definition print_check (k : option bytes * bytes) : bytes :=
